@@ -26,8 +26,8 @@ theorem setStateRun_spec (keys : List String) (st : List (String × Val)) :
     obtain ⟨k, v⟩ := kv
     by_cases hk : k ∈ keys
     · obtain ⟨h1, h2⟩ := ih (o.set k v)
-      simp [setStateRun, hk, h1, h2, applyAll, List.takeWhile_cons]
-    · simp [setStateRun, hk, applyAll, List.takeWhile_cons]
+      simp [setStateRun, hk, h1, h2, applyAll]
+    · simp [setStateRun, hk, applyAll]
 
 /-- **The guarded `set_state` agrees with the unguarded one** used by `resume_bisim`: it runs to the
     end exactly when `setState` succeeds, with the same object. -/
@@ -70,11 +70,11 @@ theorem initializeApi_eq_initializeRun {D A : Type} (sp : Spec D A) (dim : Nat) 
     (hx : r.obj.get "initial_point" ≠ Val.none) (r' : Run D A)
     (h : initializeApi sp dim r = (r', Option.none)) : r' = initializeRun sp r := by
   unfold initializeApi at h
-  split at h
-  · simp at h
-  · split at h
-    · simp at h
-    · simp only [Prod.mk.injEq, and_true] at h
+  by_cases hi : r.initialized = true
+  · simp [hi] at h
+  · by_cases hv : sp.stateKeys.any (fun k => (sp.init (defaultPoint dim r.obj)).get k = Val.none) = true
+    · simp [hi, hv] at h
+    · simp only [hi, hv, Bool.false_eq_true, if_false, Prod.mk.injEq, and_true] at h
       rw [← h]
       simp [initializeRun, defaultPoint, hx]
 
